@@ -88,3 +88,10 @@ Theorem S_components_is_source :
 Proof. exact components_is_source. Qed.
 Print Assumptions S_components_is_source.
 
+
+Theorem C17_parse_source_translated :
+  translated_gen_pstep = true /\ translated_gen_braces = true /\ translated_gen_components =
+    true /\ translated_gen_dims_ok = true /\ translated_gen_pinit = true.
+Proof. exact parse_source_translated. Qed.
+Print Assumptions C17_parse_source_translated.
+
